@@ -56,8 +56,8 @@ static std::string run(const Args& a) {
         const Geometry geo(ARG(1),ARG(2),STR(4)=="1");
         if (!geo.selfCheck()) return "0 selfcheck";
         HeadMat(geo).save(ARG(3));
-    } else if (op=="CM") {             // geom cond sensors domain out mode x y file     mode: none|gamma|alphabeta
-        const Geometry geo(ARG(1),ARG(2),false);
+    } else if (op=="CM") {             // geom cond sensors domain out mode x y file old    mode: none|gamma|alphabeta
+        const Geometry geo(ARG(1),ARG(2),a.size()>10 && STR(10)=="1");
         const Sensors electrodes(ARG(3));
         const SparseMatrix M = Head2EEGMat(geo,electrodes);
         const std::string mode = STR(6);
